@@ -3,7 +3,7 @@ from __future__ import annotations
 
 import ast
 
-from sa.loader import recv, norm, norm1, walk_shallow, is_super_call, call_name, subscript_writes
+from sa.loader import AnalysisError, recv, norm, norm1, walk_shallow, is_super_call, call_name, subscript_writes
 from sa.rulekit import (nodes_calling, node_calls, nodes_where, return_nodes, must_pass,
                         nodes_writing_attr, node_roots, effect_free_to, is_const)
 from sa.report import path_witness
@@ -59,7 +59,7 @@ def run(ck):
                  "skipped only when not given, each failure raises ValueError, and returns the "
                  "schema's result when a schema exists", 'M1', 6)
     R2 = ck.rule('R17.2', "every set_output() of Input receives the result of "
-                 "self._validate(value); the rejecting edge returns False without effect", 'M1', 3)
+                 "self._validate(value); the rejecting edge returns False without effect", 'M1', 1)
     R2b = ck.rule('R17.2b', "init_from_value/_restore_state of Input reach the output only through "
                   "event('put', value=...); get_state is the default; initdef is validated at "
                   "creation; no direct _output write", 'M0', 5)
@@ -91,7 +91,7 @@ def run(ck):
 
         def _check(v, trace=trace, passes=passes):
             trace.append(('check', v))
-            return passes
+            return 'yes' if passes else 0      # truthiness decides, not identity with True / False
 
         def _schema(v, trace=trace, sch_ok=sch_ok):
             trace.append(('schema', v))
@@ -247,8 +247,50 @@ def run(ck):
               else '; '.join(why), fi, rets[0].ast if rets else fi.node)
 
     # ------------------------------------------------------------ R17.2 (Input)
+    # layout-independent decision for the put handler: abstract run with a validator that accepts
+    # (returning a converted value) or rejects (ValueError); helper methods are stepped into
+    from sa.minieval import MiniEval
+
+    def _resolver(ci):
+        def resolve(text):
+            if text.startswith('self.') and text[5:].isidentifier() and text[5:] not in ('_validate', 'set_output'):
+                f_ = prog.resolve_method(ci, text[5:])
+                if f_ is not None and not prog.is_dummy(f_) and f_.module.name == ci.module.name:
+                    return f_.node
+            return None
+        return resolve
+    put = inp.methods.get('_event_put')
+    ck.need(R2, put is not None, "Input._event_put not found")
+    put_run_ok = None
+    try:
+        bad_ = []
+        for accept in (True, False):
+            outs = []
+
+            def _val(v, accept=accept):
+                if not accept:
+                    raise ValueError('rejected')
+                return ('VALIDATED', v)
+            env = {'value': 'RAW', 'self._validate': _val, 'self.set_output': lambda v, outs=outs: outs.append(v)}
+            kw_ = put.node.args.kwarg.arg if put.node.args.kwarg else None
+            if kw_:
+                env[kw_] = {}
+            res = MiniEval(R2, env, resolve=_resolver(inp)).run(put.node.body)
+            ck.abstract_cases += 1
+            want = (('return', True), [('VALIDATED', 'RAW')]) if accept else (('return', False), [])
+            if (res, outs) != want:
+                bad_.append(f"validator {'accepts' if accept else 'rejects'}: returns {res}, outputs {outs}")
+        put_run_ok = not bad_
+        ck.ob(R2, f"{put.fid} :: abstract run", put_run_ok,
+              "an accepted value is output in its validated form and True is returned; a rejected value "
+              "leaves the output alone and returns False" if put_run_ok else "; ".join(bad_), put, put.node)
+    except AnalysisError as err:
+        ck.note(f"R17.2 abstract run of Input._event_put not applicable: {err.reason}")
     n_sites = 0
     for name, m in sorted(inp.methods.items()):
+        if m is put and put_run_ok:
+            n_sites += 1
+            continue
         g = ck.cfg(m.fid, 'M1')
         for n in nodes_calling(g, 'set_output'):
             for call in node_calls(n, 'set_output'):
@@ -257,48 +299,48 @@ def run(ck):
                 if len(call.args) == 1:
                     ok, why = _validated_value(ck, m, g, n, call.args[0])
                 ck.ob(R2, f"{m.fid} :: {norm1(n.ast)}", ok, why, m, n.ast)
-    put = inp.methods.get('_event_put')
-    ck.need(R2, put is not None, "Input._event_put not found")
     g = ck.cfg(put.fid, 'M1')
     vnodes = nodes_where(g, lambda n: any(_is_validate_call(c) for c in node_calls(n)))
-    ck.need(R2, vnodes, "Input._event_put does not call self._validate")
-    so = nodes_calling(g, 'set_output')
-    # validate receives the event's value item
-    call = [c for c in node_calls(vnodes[0]) if _is_validate_call(c)][0]
-    rd = ck.rdefs(put.fid, 'M1')
-    arg_ok = (len(call.args) == 1 and isinstance(call.args[0], ast.Name)
-              and call.args[0].id == 'value'
-              and all(d.kind == 'entry' for d in rd.defs_at(vnodes[0], 'value')))
-    ck.ob(R2, f"{put.fid} :: validated operand", arg_ok,
-          "self._validate receives the event's `value` item" if arg_ok else
-          f"self._validate({norm(call.args[0]) if call.args else ''}) is not applied to the "
-          f"event's unmodified `value` item", put, vnodes[0].ast)
-    # rejecting edge: handler -> return False, no set_output
-    hnodes = [n for n in g.nodes if n.kind == 'handler' and g.pred[n.id]]
-    rej_ok = bool(hnodes)
-    wit = None
-    for h in hnodes:
-        reach = g.reachable_from(h)
-        if any(s.id in reach for s in so):
-            rej_ok = False
-            wit = g.path_avoiding(h, so)
-        rets = [r for r in return_nodes(g) if r.id in reach]
-        if not rets or not all(is_const(r.ast.value, False) for r in rets):
-            rej_ok = False
-        if g.exit.id in reach and must_pass(g, h, rets, [g.exit]) is not None:
-            rej_ok = False
-    ck.ob(R2, f"{put.fid} :: rejecting edge", rej_ok,
-          "a rejected value returns False and never reaches set_output" if rej_ok else
-          "the ValueError edge of self._validate reaches set_output or does not return False",
-          put, hnodes[0].ast if hnodes else put.node, witness=path_witness(g, wit))
-    # accepted path returns True after set_output
-    acc_rets = [r for r in return_nodes(g) if so and any(g.dominates(s, r) for s in so)]
-    acc_ok = bool(acc_rets) and all(is_const(r.ast.value, True) for r in acc_rets)
-    p = must_pass(g, so[0], acc_rets, [g.exit]) if so else None
-    ck.ob(R2, f"{put.fid} :: accepting edge", acc_ok and p is None and bool(so),
-          "an accepted value is stored and the event returns True" if acc_ok and p is None else
-          "after set_output the handler does not return True on every path", put,
-          so[0].ast if so else put.node, witness=path_witness(g, p))
+    ck.need(R2, vnodes or put_run_ok, "Input._event_put does not call self._validate")
+    if vnodes:
+        so = nodes_calling(g, 'set_output')
+        # validate receives the event's value item
+        call = [c for c in node_calls(vnodes[0]) if _is_validate_call(c)][0]
+        rd = ck.rdefs(put.fid, 'M1')
+        arg_ok = (len(call.args) == 1 and isinstance(call.args[0], ast.Name)
+                  and call.args[0].id == 'value'
+                  and all(d.kind == 'entry' for d in rd.defs_at(vnodes[0], 'value')))
+        ck.ob(R2, f"{put.fid} :: validated operand", arg_ok,
+              "self._validate receives the event's `value` item" if arg_ok else
+              f"self._validate({norm(call.args[0]) if call.args else ''}) is not applied to the "
+              f"event's unmodified `value` item", put, vnodes[0].ast)
+        # rejecting edge: handler -> return False, no set_output
+        hnodes = [n for n in g.nodes if n.kind == 'handler' and g.pred[n.id]]
+        rej_ok = bool(hnodes)
+        wit = None
+        for h in hnodes:
+            reach = g.reachable_from(h)
+            if any(s.id in reach for s in so):
+                rej_ok = False
+                wit = g.path_avoiding(h, so)
+            rets = [r for r in return_nodes(g) if r.id in reach]
+            if not rets or not all(is_const(r.ast.value, False) for r in rets):
+                rej_ok = False
+            if g.exit.id in reach and must_pass(g, h, rets, [g.exit]) is not None:
+                rej_ok = False
+        ck.ob(R2, f"{put.fid} :: rejecting edge", rej_ok,
+              "a rejected value returns False and never reaches set_output" if rej_ok else
+              "the ValueError edge of self._validate reaches set_output or does not return False",
+              put, hnodes[0].ast if hnodes else put.node, witness=path_witness(g, wit))
+        # accepted path returns True after set_output
+        acc_rets = [r for r in return_nodes(g) if so and any(g.dominates(s, r) for s in so)]
+        acc_ok = bool(acc_rets) and all(is_const(r.ast.value, True) for r in acc_rets)
+        p = must_pass(g, so[0], acc_rets, [g.exit]) if so else None
+        ck.ob(R2, f"{put.fid} :: accepting edge", acc_ok and p is None and bool(so),
+              "an accepted value is stored and the event returns True" if acc_ok and p is None else
+              "after set_output the handler does not return True on every path", put,
+              so[0].ast if so else put.node, witness=path_witness(g, p))
+
 
     # ------------------------------------------------------------ R17.2b
     for hook in ('init_from_value', '_restore_state'):
@@ -358,7 +400,35 @@ def run(ck):
           f"{inp.module.path}:{inp.node.lineno}")
 
     # ------------------------------------------------------------ R17.3 (InputExp)
+    cp = iexp.methods.get('cond_put')
+    ck.need(R3, cp is not None, "InputExp.cond_put not found")
+    cp_run_ok = None
+    try:
+        bad_ = []
+        for accept in (True, False):
+            sd = {'other': 1}
+
+            def _val(v, accept=accept):
+                if not accept:
+                    raise ValueError('rejected')
+                return ('VALIDATED', v)
+            env = {'fsm.fsm_event_data.get()': {'value': 'RAW'}, 'fsm_event_data.get()': {'value': 'RAW'},
+                   'self._validate': _val, 'self.sdata': sd}
+            res = MiniEval(R3, env, resolve=_resolver(iexp)).run(cp.node.body)
+            ck.abstract_cases += 1
+            want = (('return', True), {'other': 1, 'input': ('VALIDATED', 'RAW')}) if accept else \
+                (('return', False), {'other': 1})
+            if (res, sd) != want:
+                bad_.append(f"validator {'accepts' if accept else 'rejects'}: returns {res}, sdata {sd}")
+        cp_run_ok = not bad_
+        ck.ob(R3, f"{cp.fid} :: abstract run", cp_run_ok,
+              "an accepted value is stored in its validated form and the condition is true; a rejected "
+              "value is not stored and the condition is false" if cp_run_ok else "; ".join(bad_), cp, cp.node)
+    except AnalysisError as err:
+        ck.note(f"R17.3 abstract run of InputExp.cond_put not applicable: {err.reason}")
     for name, m in sorted(iexp.methods.items()):
+        if m is cp and cp_run_ok:
+            continue
         g = ck.cfg(m.fid, 'M1')
         for n in nodes_where(g, lambda n: n.kind == 'stmt'):
             for tgt, kind, stmt in subscript_writes(n.ast):
@@ -377,8 +447,6 @@ def run(ck):
                 ck.ob(R3, f"{m.fid} :: {norm1(w.ast)}", False,
                       "replaces self.sdata wholesale without validating its 'input' item",
                       m, w.ast)
-    cp = iexp.methods.get('cond_put')
-    ck.need(R3, cp is not None, "InputExp.cond_put not found")
     g = ck.cfg(cp.fid, 'M1')
     hn = [n for n in g.nodes if n.kind == 'handler' and g.pred[n.id]]
     writes = nodes_where(g, lambda n: n.kind == 'stmt' and any(
@@ -395,7 +463,7 @@ def run(ck):
             ok = False
     acc = [r for r in return_nodes(g) if writes and any(g.dominates(w, r) for w in writes)]
     ok = ok and bool(acc) and all(is_const(r.ast.value, True) for r in acc)
-    ck.ob(R3, f"{cp.fid} :: accept/reject edges", ok,
+    ck.ob(R3, f"{cp.fid} :: accept/reject edges", ok or bool(cp_run_ok),
           "a rejected value returns False without storing; an accepted one is stored and returns "
           "True" if ok else "cond_put stores on the rejecting edge or returns the wrong verdict",
           cp, cp.node, witness=path_witness(g, wit))
